@@ -41,6 +41,7 @@ type C12Batch struct {
 
 type C12Scenario struct {
 	Mem    bool            `json:"mem,omitempty"`
+	Cold   bool            `json:"cold,omitempty"` // no warm-up: first index / bucket builds race the batches
 	Recs   []C11Rec        `json:"recs"`
 	Cap    Filt            `json:"cap"` // body-only filter (status IN … [AND n >= …])
 	Max    int32           `json:"max"`
@@ -206,6 +207,7 @@ func genC12(strictOpen, indexOnlyOpen bool) func(t *rapid.T) C12Scenario {
 		}
 		var s C12Scenario
 		s.Mem = rapid.IntRange(0, 3).Draw(t, "mem") == 0
+		s.Cold = rapid.IntRange(0, 2).Draw(t, "cold") == 0
 		capF, in, out, hasN := genC12Cap(t)
 		s.Cap = capF
 		s.Max = int32(rapid.IntRange(1, 6).Draw(t, "max"))
@@ -344,6 +346,9 @@ func c12Seed(e *env, sn string, s C12Scenario, wall0 int64) error {
 	}
 	if err := e.seed(sn, recs); err != nil {
 		return err
+	}
+	if s.Cold {
+		return nil // the racing requests build the indexes / buckets themselves
 	}
 	isl := rig.Island(sn)
 	for _, it := range []hydrapb.IndexType_Type{hydrapb.IndexType_KEY, hydrapb.IndexType_EXPIRATION_TIME, hydrapb.IndexType_CREATION_TIME} {
@@ -532,6 +537,9 @@ func runC12(s C12Scenario) pbt.Outcome {
 	if overlapAny {
 		cls["batches-overlap"] = true
 	}
+	if s.Cold {
+		cls["cold-indexes-and-buckets"] = true
+	}
 	out := pbt.Outcome{NonTrivial: overlapAny && demand > int(s.Max)-count0}
 	if demand > int(s.Max)-count0 {
 		cls["demand-exceeds-budget"] = true
@@ -590,6 +598,9 @@ func TestC12Main(t *testing.T) {
 	idxOnly := pbt.Open("C12", "cap-count-limited-to-walked-index")
 	if open {
 		pbt.Excluded("C12", "main", "an in-moving PatchTreasures(Cap) batch concurrent with another in-moving cap-bearing batch (open finding cap-precount-before-lock)")
+	}
+	if pbt.Open("C12", "cap-shift-autodestroy-vs-capmu-deadlock") {
+		pbt.Excluded("C12", "main", "a cap-bearing ShiftMatching that removes the swamp's last record while another cap-bearing request is in flight: two anchor records no request can match keep every generated swamp non-empty (open finding cap-shift-autodestroy-vs-capmu-deadlock)")
 	}
 	if idxOnly {
 		pbt.Excluded("C12", "main", "records without ExpiredAt / created records without ExpiredAt+CreatedAt, i.e. matching records outside a walked index (open finding cap-count-limited-to-walked-index)")
@@ -916,4 +927,105 @@ func TestC12WitnessIndexOnly(t *testing.T) {
 		Rule:  "sequential: MaxMatching records with status \"leased\" and NO ExpiredAt (cap used up) + 1–4 expired records with status \"ready\"; one PatchExpiredTreasures(Cap, SET status=\"leased\")",
 		Quick: 12, Thorough: 100, Gen: genC12WitnessIndexOnly, Run: runC12,
 	}, "cap-count-limited-to-walked-index", "cap-exceeded")
+}
+
+// --- witness: cap-bearing ShiftMatching auto-destroys the emptied swamp while it still holds capMu ------
+
+type C12DestroyDL struct {
+	N    int    `json:"n"`
+	Kind string `json:"kind"` // the second cap-bearing request: patch | pe | sm
+	Mem  bool   `json:"mem,omitempty"`
+}
+
+func runC12DestroyDL(s C12DestroyDL) pbt.Outcome {
+	e := getEnv()
+	if poisoned {
+		return pbt.Outcome{Skip: true}
+	}
+	sn := freshSwamp("c12d-", s.Mem)
+	isl := rig.Island(sn)
+	now := time.Now().UnixNano()
+	var recs []seedRec
+	for i := 0; i < s.N; i++ { // no anchor: the shift below removes every record
+		recs = append(recs, seedRec{Key: keyOf(i), Body: Body{Status: "ready", Owner: "none", N: int64(i)}, Exp: now - int64(100+i)*1e9, Created: now - int64(9000+i)*1e9})
+	}
+	if err := e.seed(sn, recs); err != nil {
+		return pbt.Failf("harness", "seed: %v", err)
+	}
+	capP := &hydrapb.Cap{Filter: (&Filt{Legs: []Leg{{Field: "status", Op: "eq", S: "leased"}}}).proto(), MaxMatching: 3}
+	// A holds capMu, has selected every record and is held before its first removal until B (vigil begun) asks for capMu
+	plan := []vsched.Action{{Site: "swamp:deleteHandler:StartTreasureGuard:ac9b2b", Hit: 1, Kind: "pause", Until: "b-at-capmu", MaxWaitMs: 1500}}
+	vsched.Activate(plan, false)
+	var wg sync.WaitGroup
+	wg.Add(2)
+	go func() {
+		defer wg.Done()
+		e.r.G.ShiftMatchingTreasures(e.ctx, &hydrapb.ShiftMatchingTreasuresRequest{IslandID: isl, SwampName: sn, IndexType: hydrapb.IndexType_KEY, HowMany: 0,
+			Filters: (&Filt{Legs: []Leg{{Field: "n", Op: "ge", I: 0}}}).proto(), Cap: capP})
+	}()
+	go func() {
+		defer wg.Done()
+		time.Sleep(5 * time.Millisecond)
+		go func() {
+			// B reaches its capMu request shortly after it began its vigil; release A a moment later
+			time.Sleep(20 * time.Millisecond)
+			vsched.Signal("b-at-capmu")
+		}()
+		switch s.Kind {
+		case "pe":
+			e.r.G.PatchExpiredTreasures(e.ctx, &hydrapb.PatchExpiredTreasuresRequest{IslandID: isl, SwampName: sn, HowMany: 1, Ops: opsProto([]POp{{Kind: "set-status", S: "leased"}}), Cap: capP})
+		case "sm":
+			e.r.G.ShiftMatchingTreasures(e.ctx, &hydrapb.ShiftMatchingTreasuresRequest{IslandID: isl, SwampName: sn, IndexType: hydrapb.IndexType_KEY, HowMany: 1,
+				Filters: (&Filt{Legs: []Leg{{Field: "n", Op: "ge", I: 0}}}).proto(), Cap: capP})
+		default:
+			e.r.G.PatchTreasures(e.ctx, &hydrapb.PatchTreasuresRequest{IslandID: isl, SwampName: sn, Cap: capP,
+				Patches: []*hydrapb.TreasurePatch{{Key: keyOf(0), Ops: opsProto([]POp{{Kind: "set-status", S: "leased"}})}}})
+		}
+	}()
+	done := make(chan struct{})
+	go func() { wg.Wait(); close(done) }()
+	hung := false
+	select {
+	case <-done:
+	case <-time.After(8 * time.Second):
+		hung = true
+	}
+	rep := vsched.Deactivate()
+	if !hung {
+		e.destroy(sn)
+		return pbt.Outcome{NonTrivial: len(rep.Fired) > 0, Classes: []string{"no-deadlock"}}
+	}
+	select {
+	case <-done:
+		e.destroy(sn)
+		return pbt.Outcome{NonTrivial: true, Classes: []string{"slow-but-finished"}}
+	case <-time.After(3 * time.Second):
+	}
+	count := func() (int, int) {
+		v := goroutinesIn("vigil.(*vigil).WaitForActiveVigilsClosed", "sync.Cond.Wait")
+		m := goroutinesIn("swamp.(*swamp).LockCapMu", "sync.Mutex") + goroutinesIn("swamp.(*swamp).PatchExpired", "sync.Mutex") + goroutinesIn("swamp.(*swamp).CloneAndDeleteMatchingTreasures", "sync.Mutex")
+		return v, m
+	}
+	v1, m1 := count()
+	time.Sleep(300 * time.Millisecond)
+	v2, m2 := count()
+	poisoned = true
+	if v1 > 0 && v2 > 0 && m1 > 0 && m2 > 0 {
+		return pbt.Failf("deadlock", "ShiftMatchingTreasures(Cap) removed the last %d records and auto-destroys the swamp while still holding the cap mutex: swamp.Destroy waits in WaitForActiveVigilsClosed for the vigil of a second "+
+			"cap-bearing request (%s) that began its vigil and now waits for the cap mutex — neither request ever returns (fired %v)", s.N, s.Kind, rep.Fired)
+	}
+	return pbt.Failf("hang", "requests did not return within 11 s (vigil waiters %d, capMu waiters %d; fired %v)", v2, m2, rep.Fired)
+}
+
+func TestC12WitnessZDestroyDeadlock(t *testing.T) {
+	pbt.Witness(t, pbt.Spec[C12DestroyDL]{
+		ID: "C12", Facet: "witness-cap-shift-autodestroy-deadlock",
+		Rule: "2–6 records and NO anchor; ShiftMatchingTreasures(Cap, all) holds capMu, has selected every record and is paused before its first removal until a second cap-bearing request " +
+			"(PatchTreasures / PatchExpired / ShiftMatching with the same Cap) has begun its vigil and asks for capMu; stops after the first reproduction",
+		Quick: 3, Thorough: 3,
+		Gen: func(t *rapid.T) C12DestroyDL {
+			return C12DestroyDL{N: rapid.IntRange(2, 6).Draw(t, "n"), Kind: rapid.SampledFrom([]string{"patch", "pe", "sm"}).Draw(t, "kind"), Mem: rapid.Bool().Draw(t, "mem")}
+		},
+		Run: runC12DestroyDL,
+	}, "cap-shift-autodestroy-vs-capmu-deadlock", "deadlock")
 }
